@@ -234,6 +234,7 @@ pub const WORKLOADS: &[&str] = &[
     "cross_thread_merge_sequential",
     "stride_scan",
     "special_priority_values",
+    "split_insert_gather",
 ];
 
 /// Runs one workload to `n` elements. Returns the treap's final stats for the evidence.
@@ -419,6 +420,50 @@ pub fn run_workload(name: &str, n: usize, seed: u64, rep: &mut Report) {
                         return;
                     }
                 }
+            }
+            "split_insert_gather" => {
+                // one treap is cut into many parts, every part receives new elements through insert_at, the parts are put
+                // together again (first with the old elements removed, so that the new nodes are neighbours; then with both
+                // kept; then cut by split_by): the priorities of nodes inserted into different parts of one former treap must
+                // be as independent as any others
+                let k = n.min(1500).max(64);
+                for variant in 0..3 {
+                    let mut whole: Treap<KeyItem> = lib!(Treap::new());
+                    for i in 0..k {
+                        lib!(whole.insert_at(i, item(i as u64)));
+                    }
+                    let mut parts: Vec<Treap<KeyItem>> = Vec::with_capacity(k);
+                    let mut rest = whole;
+                    for i in 0..k - 1 {
+                        let (a, b) = if variant == 2 { lib!(rest.split_by(|it: &KeyItem| it.key <= i as u64)) } else { lib!(rest.split_at(1)) };
+                        parts.push(a);
+                        rest = b;
+                    }
+                    parts.push(rest);
+                    let mut total = 0usize;
+                    let mut gathered: Treap<KeyItem> = lib!(Treap::new());
+                    for (i, mut part) in parts.into_iter().enumerate() {
+                        lib!(part.insert_at(1, item(1_000_000 + i as u64)));
+                        if variant == 0 {
+                            lib!(part.remove_at(0));
+                            total += 1;
+                        } else {
+                            if i % 3 == 0 {
+                                lib!(part.insert_at(0, item(2_000_000 + i as u64)));
+                                total += 1;
+                            }
+                            total += 2;
+                        }
+                        gathered = lib!(Treap::merge(gathered, part));
+                    }
+                    cx.rep.inc("split_insert_gather_rounds");
+                    let ok = cx.checkpoint(&gathered, total, &format!("{} parts of one treap, an element inserted into each, gathered again (variant {})", k, variant));
+                    if !ok {
+                        std::mem::forget(gathered);
+                        return;
+                    }
+                }
+                len = 0;
             }
             "tie_storm" => {
                 // priorities assigned through the public field from a tiny set, so almost every comparison is a tie: heap
@@ -672,6 +717,26 @@ pub fn run_workload(name: &str, n: usize, seed: u64, rep: &mut Report) {
                 let m = (8 * n).clamp(400_000, 4_000_000);
                 let prios: Vec<u32> = (0..m).map(|i| lib!(TreapNode::new(item(i as u64))).priority).collect();
                 cx.rep.count("priorities_sampled", m as u64);
+                // does the stream repeat itself? Two equal consecutive priorities reappearing later (a 64-bit coincidence: not
+                // by chance within a few million draws) give the lag of a cycle; that lag joins the strides below
+                let mut lags: Vec<usize> = Vec::new();
+                {
+                    let mut seen: std::collections::HashMap<u64, u32> = std::collections::HashMap::with_capacity(m);
+                    for i in 0..m - 2 {
+                        let key = (prios[i] as u64) << 32 | prios[i + 1] as u64;
+                        if let Some(&j) = seen.get(&key) {
+                            if prios[j as usize + 2] == prios[i + 2] {
+                                let lag = i - j as usize;
+                                if !lags.contains(&lag) && lags.len() < 4 {
+                                    lags.push(lag);
+                                }
+                                continue;
+                            }
+                        }
+                        seen.insert(key, i as u32);
+                    }
+                }
+                cx.rep.count("priority_stream_repetition_lags_found", lags.len() as u64);
                 let mut scored: Vec<(f64, usize, usize, usize)> = Vec::new(); // (ratio, stride, len, height)
                 // every stride up to 4096, then 2^k * {1, 3, 5, 7} as far as 64 elements remain (what survives "delete every
                 // second element" r times is the stride 2^r)
@@ -684,6 +749,11 @@ pub fn run_workload(name: &str, n: usize, seed: u64, rep: &mut Report) {
                         }
                     }
                     pw *= 2;
+                }
+                for &lag in &lags {
+                    if lag >= 1 && lag <= m / 64 {
+                        strides.push(lag);
+                    }
                 }
                 strides.sort_unstable();
                 strides.dedup();
